@@ -8,7 +8,8 @@ spec/ReadelfEnvelope.tla, which puts them into an ELF container with the specifi
 
 Sources of C18's own (no other property builds these structures inside the envelope of a whole-file dump): 'dumps'
 (spec/ReadelfEnvelopeS.tla: sections for -x / -p), 'relocenv' (spec/ReadelfEnvelopeR.tla: the Reloc writer's tables with named
-symbols, for -r), 'exprctx' (spec/ReadelfEnvelopeE.tla: expressions in mixed unit contexts).  A source may also emit SEQUENCES
+symbols, for -r), 'exprctx' (spec/ReadelfEnvelopeE.tla: expressions in mixed unit contexts), 'cfinest' (spec/ReadelfEnvelopeC.tla:
+the CFI writer with an alphabet of blocks that nests DW_CFA_remember_state / DW_CFA_restore_state pairs, for frames / frames-interp).  A source may also emit SEQUENCES
 (cases with a 'seq' list of image keys): the images of a sequence are dumped one after the other by one process - the job's path is
 the paths joined by '|' (c18._one)."""
 import json
@@ -401,6 +402,16 @@ def _read_cfi(run, path):
                          'addr': list(addr.to_bytes(c['asz'], 'little')) if c['sk'] == 'eh' else []}]}
 
 
+def _read_cfinest(run, path):
+    """ReadelfEnvelopeC.tla: the CFI writer's sections whose FDE program holds two and more remembered states (nested
+    DW_CFA_remember_state / DW_CFA_restore_state); the class of a case is container / depth / (every level left again)."""
+    for c in run.cases(path):
+        for out in _read_cfi(_OneCase(run, c), path):
+            out['tag'] += '/depth%d%s' % (c['depth'], '/closed' if c['closed'] else '')
+            out['rank'] = 0 if c['closed'] else 1          # (the outer restores have happened: the core of the alphabet)
+            yield out
+
+
 def _read_locrange(run, path):
     """LocRange.tla (C07): location / range list sections next to the .debug_info whose entries refer to the lists."""
     names = {('loc', 4): 'loc', ('loc', 5): 'loclists', ('rng', 4): 'ranges', ('rng', 5): 'rnglists'}
@@ -500,6 +511,8 @@ SOURCES = [
            ['--debug-dump=info'], sample=(500, 2000), wrap=True, envelope=_env_die),
     Source('cfi', 'CFI', {'quick': ['CFI_scan_quick', 'CFI_prog1_quick'], 'thorough': ['CFI_scan_quick', 'CFI_prog1_quick', 'CFI_prog3_quick']}, _read_cfi,
            _opt_cfi, sample=(300, 1500), wrap=True, tlc={'env': {'JAVA_TOOL_OPTIONS': '-Xss32m'}}, envelope=_env_cfi),
+    Source('cfinest', 'ReadelfEnvelopeC', {'quick': ['ReadelfEnvelopeC_quick'], 'thorough': ['ReadelfEnvelopeC_thorough']}, _read_cfinest,
+           _opt_cfi, sample=(240, 1200), wrap=True, tlc={'env': {'JAVA_TOOL_OPTIONS': '-Xss32m'}}, envelope=_env_cfi),
     Source('versions', 'ReadelfEnvelopeV', {'quick': ['ReadelfEnvelopeV_quick'], 'thorough': ['ReadelfEnvelopeV_thorough']}, _read_versions, ['-V']),
     Source('notes', 'Notes', {'quick': ['ReadelfEnvelope_Notes|Notes_quick'], 'thorough': ['Notes_quick']}, _read_notes, ['-n'], sample=(400, 2000), envelope=_env_notes),
     Source('elfimage', 'ElfImage', {'quick': ['ReadelfEnvelope_ElfImage|ElfImage_quick'], 'thorough': ['ElfImage_quick']}, _read_elfimage, ['-e'], sample=(300, 1500),
